@@ -19,7 +19,8 @@ EXPLANATION = (
     'return-type chain: for every supported type the tuple is the rotation mapping the named first day to 1 (type 3: Monday -> 0), '
     'unknown types give #NUM!; (C18.4) YEAR, MONTH, DAY, WEEKDAY, ISOWEEKNUM, EDATE, EOMONTH, DATEDIF truncate the serial with int() '
     'before converting it; (C18.5) YEARFRAC basis dispatch: 2 -> days/360, 3 -> days/365, 0/1/4 -> library conventions, other -> '
-    'error, dates swapped when out of order.')
+    'error, dates swapped when out of order.'
+    ' (C18.6) DATEDIF "Y", "M", "D" as the evaluator calls it on date pairs one day before / on / after an anniversary across leap years (dateutil.rrule by its documented recurrence).')
 NOT_DECIDED = 'the calendar itself (datetime / dateutil / yearfrac), the three million serials'
 TRUSTED = ['datetime.timedelta(days, seconds) and datetime.weekday() (Monday = 0) semantics']
 
